@@ -147,8 +147,15 @@ func lower(t *rt.Thread, c *rt.GoCont) (rt.Cont, error) {
 		return nil, err
 	}
 	t.RequireBytes(len(s))
-	s = strings.ToLower(string(s))
-	return c.PushingNext1(t.Runtime, rt.StringValue(s)), nil
+	// Lua strings are byte strings: only ASCII letters are converted, every
+	// other byte is left unchanged (strings.ToLower would decode UTF-8).
+	b := []byte(s)
+	for i, x := range b {
+		if 'A' <= x && x <= 'Z' {
+			b[i] = x + ('a' - 'A')
+		}
+	}
+	return c.PushingNext1(t.Runtime, rt.StringValue(string(b))), nil
 }
 
 func upper(t *rt.Thread, c *rt.GoCont) (rt.Cont, error) {
@@ -160,8 +167,15 @@ func upper(t *rt.Thread, c *rt.GoCont) (rt.Cont, error) {
 		return nil, err
 	}
 	t.RequireBytes(len(s))
-	s = strings.ToUpper(string(s))
-	return c.PushingNext1(t.Runtime, rt.StringValue(s)), nil
+	// Lua strings are byte strings: only ASCII letters are converted, every
+	// other byte is left unchanged (strings.ToUpper would decode UTF-8).
+	b := []byte(s)
+	for i, x := range b {
+		if 'a' <= x && x <= 'z' {
+			b[i] = x - ('a' - 'A')
+		}
+	}
+	return c.PushingNext1(t.Runtime, rt.StringValue(string(b))), nil
 }
 
 func rep(t *rt.Thread, c *rt.GoCont) (rt.Cont, error) {
